@@ -158,12 +158,22 @@ def check_case(src, plan):
     loopy = any(t in UNSUP_LOOPY for _, _, t in plan)
     # exact removal
     g1 = deepcopy(g)
+    odd = sorted({_container(g, n) for n in ins} - {"FuncDef", "If", "While", "DoWhile", "For"})
+    if odd:
+        # a block that is not the body of the function / a branch / a loop (e.g. under a label): one root cause, one report
+        try:
+            c1 = Coverage(g1)
+            c1.ast_mod()
+            if D.dump(g1) != base_tree:
+                fail(f"kept: an unsupported statement inserted in a block under {odd} survives the removal pass "
+                     f"(gate says full={Coverage(g1).full})", ["kept-under"] + odd, base_c, D.to_c(g1))
+        except Exception as e:
+            fail(f"raises: Coverage/ast_mod raises {type(e).__name__}", ["raises", type(e).__name__] + kinds, "no exception", vlib.exc_sig(e))
+        return fails
     try:
         c1 = Coverage(g1)
         if c1.full:
-            cont = sorted({_container(g, n) for n in ins})
-            fail(f"not-rejected: an unsupported statement inserted in a block under {cont} is accepted by the gate (and kept)",
-                 ["inserted-accepted"] + cont, "not full", "full")
+            fail("not-rejected: an inserted unsupported statement is accepted by the gate", ["inserted-accepted"] + kinds, "not full", "full")
             return fails
         c1.ast_mod()
         after = D.dump(g1)
@@ -360,7 +370,7 @@ def run(ctx):
             mism.append(f"harness: pool statement {u!r} is not rejected-and-removed as a whole by the gate")
     dist = {"hosts": 0, "cases": 0, "insertions": 0, "positions_in_nested_blocks": 0, "all_position_sweeps": 0,
             "host_blocks_max": 0, "kinds": {}}
-    nhosts = ctx.n(60, 500)
+    nhosts = ctx.n(45, 500)
     corpus = vlib.corpus("C07")
     todo = [(c["src"], [tuple(p) for p in c["plan"]]) for c in corpus]
     for h in range(nhosts):
@@ -424,7 +434,7 @@ def run(ctx):
     ncorr = 0
     if ctx.coq_ok:
         items = []
-        for k in range(ctx.n(300, 2000)):
+        for k in range(ctx.n(240, 2000)):
             if k % 4 == 0:
                 src, ast = gen_supported(rng)
                 f = ast.ext[-1]
